@@ -112,7 +112,21 @@ def run_unit(unit):
                     except Exception as e:
                         agg.violation(V("full_join.swap", "raises-" + type(e).__name__, case))
                 last = case
-            # containment: inner ⊆ left ⊆ full on the implementation's own results
+            # containment: inner ⊆ left ⊆ full on the implementation's own results (the library's inner_join, not the model's)
+            if "join" in results:
+                try:
+                    Li, loni, _ = js.build_side("L", lkeys, nkeys, config, form, variant=vi % NROUTES)
+                    Ri, roni, _ = js.build_side("R", rkeys, nkeys, config, form, variant=(vi // NROUTES) % NROUTES)
+                    inner_rows = js.result_rows(Li.inner_join(Ri, left_on=loni, right_on=roni, expect="many_to_many"))
+                except Exception:
+                    inner_rows = None
+                if inner_rows is not None:
+                    agg.transitions += 1; agg.compared += 1
+                    ci = collections.Counter(js.canon_rows(inner_rows))
+                    cl = collections.Counter(js.canon_rows(results["join"]))
+                    if ci - cl:
+                        agg.violation(V("inner_join-vs-join", "inner-not-contained-in-left",
+                                        js.describe_case(kind, nkeys, config, form, lkeys, rkeys, "both", "many_to_many"), results["join"], inner_rows))
             if "join" in results and "full_join" in results:
                 a = collections.Counter(js.canon_rows(results["join"]))
                 b = collections.Counter(js.canon_rows(results["full_join"]))
